@@ -138,6 +138,7 @@ def detect(pid, m, props):
     finally:
         sh("git checkout HEAD -- . && git reset -q && git clean -fdq -e test-out", cwd="/repo")
         sh("rm -f /verif/replays/*", cwd="/verif")
+        sh("git checkout -- evidence", cwd="/verif")  # evidence written while /repo was patched is not evidence about /repo
     meta["detected_by"] = sorted(p for p, r in meta["checks"].items() if r.get("detected"))
     json.dump(meta, open(os.path.join(d, "meta.json"), "w"), indent=1)
 
